@@ -859,6 +859,8 @@ def _closed_helper(callee):
 
     if callee.cls is not None:
         return False
+    if any(isinstance(x, ast.Call) and isinstance(x.func, ast.Name) and x.func.id in ("open", "print", "input", "exec", "eval") for x in ast.walk(callee.node)):
+        return False  # talks to the outside world (the compression sniffer reads the file): a role of its own, kept as a call
     local = set(callee.params) | {x.id for x in ast.walk(callee.node) if isinstance(x, ast.Name) and isinstance(x.ctx, ast.Store)}
     for x in ast.walk(callee.node):
         if isinstance(x, ast.Name) and isinstance(x.ctx, ast.Load) and x.id not in local and not hasattr(builtins, x.id):
